@@ -235,6 +235,10 @@ def execC (ms : MacroSem) : Nat → CStmt → MState → Except Stuck MState
         match lhs with
         | .var n _ => .ok { σ with locals := setLocal σ.locals n v }
         | .reg n k _ => writeRegC σ n k v
+        | .imm l _ => (match v with
+            -- the immediate is an ordinary variable of the behaviour, initialised from the encoding
+            | .bv _ x => .ok { σ with imm := fun q => if q == l then x.toNat else σ.imm q }
+            | _ => .error (.sort "immediate write"))
         | _ => .error (.undef "assignment target")
     | .store w e => do
         let v ← evalC ms σ e
